@@ -481,6 +481,93 @@ def run_firstblock(st: Stats, case):
         r.cleanup()
 
 
+# ---------------------------------------------------------------------------
+# (d) rendered pages
+# ---------------------------------------------------------------------------
+RENDER_KEYS = ["mod", "t1", "s1", "fn1", "v1", "gi", "pr", "c1", "b1", "a1", "e1", "xs", "xa", "bd", "in1"]
+
+
+def rwords(key):
+    return [f"zq{key}{c}" for c in "abcdefg"]
+
+
+def run_rendered(st: Stats, special):
+    """every entity carries a comment of several paragraphs and a list (the `special` one also a Markdown footnote);
+    on the page FORD names as the entity's own (its URL), all words of the comment appear, in order, the words after the
+    first paragraph exactly once, and no word of another entity's footnote."""
+    from mc.site import Site
+
+    src_lines = []
+    for (k, stmt, indent) in SKELETON:
+        pad = "  " * indent
+        src_lines.append(pad + stmt)
+        if k in RENDER_KEYS:
+            w = rwords(k)
+            doc = [f"{w[0]} {w[1]}", "", f"{w[2]} {w[3]}" + ("[^1]" if k == special else ""), "", f"- {w[4]}", f"- {w[5]}"]
+            if k == special:
+                doc += ["", f"[^1]: {w[6]}"]
+            src_lines += [f"{pad}!! {l}".rstrip() for l in doc]
+    src = "\n".join(src_lines) + "\n"
+    r = fordrun.build({"src/m.f90": src}, dict(display=["public", "private", "protected"], proc_internals=True, incl_src=False), stage="write")
+    st.evaluations += 1
+    stratum = "rendered"
+    inp = dict(special=special, source=src, rendered=True)
+    st.nontrivial.add(core.digest(["rendered", special]))
+    try:
+        if r.error is not None or r.stage_reached != "write":
+            st.violation("ford-failed", stratum, dict(entity=special), inp, repr(r.error) + r.log[-300:], "site is written")
+            st.stratum(stratum, 1)
+            return
+        site = Site(r.out)
+        bad = 0
+        foreign = rwords(special)[6]
+        for key in RENDER_KEYS:
+            ents = find_entity(r.project, key)
+            ent = ents[0] if isinstance(ents, list) else ents
+            if ent is None:
+                continue
+            url = ent.get_url()
+            st.transitions += 1
+            feats = dict(entity=key, special=special, is_special=(key == special))
+            if not url:
+                continue
+            page = site.pages.get(url.split("#")[0])
+            if page is None:
+                bad += 1
+                st.violation("entity-page-missing", stratum, feats, inp, url, "the page of the entity's URL exists")
+                continue
+            want = rwords(key)[:6] + ([rwords(key)[6]] if key == special else [])
+            got = re.findall(rf"\bzq{key}[a-g]\b", page.text)
+            # in order (as a subsequence), later paragraphs exactly once
+            it = iter(got)
+            in_order = all(any(x == w for x in it) for w in want)
+            later_once = key == "a1" or all(got.count(w) == 1 for w in want[2:])  # (a1 is also a member of the namelist shown on the same page)
+            if not in_order or not later_once:
+                bad += 1
+                lost = [w for w in want if w not in got]
+                st.violation("rendered-doc-incomplete" if lost else "rendered-doc-duplicated-or-reordered", stratum, dict(feats, lost=",".join(lost)), inp,
+                             dict(page=url, words=got), want)
+            if key != special and foreign in page.text and not _shares_page(r.project, key, special, url):
+                bad += 1
+                st.violation("doc-on-wrong-entity", stratum, feats, inp, dict(page=url, foreign_word=foreign), "no text of another entity's footnote")
+        st.states.add(core.digest([special, bad]))
+        st.stratum(stratum, bad)
+    finally:
+        r.cleanup()
+
+
+def _shares_page(project, key, special, url):
+    """the special entity is legitimately shown on this page too (it lives on it or is summarised there)"""
+    ents = find_entity(project, special)
+    ent = ents[0] if isinstance(ents, list) else ents
+    if ent is None:
+        return False
+    page = url.split("#")[0]
+    chain = [ent] + list(getattr(ent, "hierarchy", []) or [])
+    urls = {(e.get_url() or "").split("#")[0] for e in chain if hasattr(e, "get_url")}
+    return page in urls
+
+
 def find_entity(project, key):
     m = project.modules[0]
     t = m.types[0] if m.types else None
@@ -519,6 +606,8 @@ def gen_cases(tier):
         for kind in BLOCK_KEYS:
             for meta_first in (False, True):
                 yield ("firstblock", (key, kind, meta_first))
+    for key in RENDER_KEYS:
+        yield ("rendered", key)
 
 
 def work(chunk):
@@ -530,6 +619,8 @@ def work(chunk):
             run_body(st, case)
         elif kind == "firstblock":
             run_firstblock(st, case)
+        elif kind == "rendered":
+            run_rendered(st, case)
         else:
             run_meta(st, case)
     return st
@@ -545,6 +636,9 @@ def replay(path):
     if "blocks" in i:
         run_body(st, tuple(i["blocks"]))
         print(i["text"])
+    elif i.get("rendered"):
+        run_rendered(st, i["special"])
+        print(i["source"])
     elif "block" in i:
         run_firstblock(st, (i["entity"], i["block"], i["meta_first"]))
         print(i["source"])
